@@ -40,7 +40,7 @@ Step(obs) ==
   /\ nf' = nf + (IF fl' = <<>> THEN 0 ELSE 1)
   /\ (fl' # <<>>) => PrintT(<<"OBL_FAIL", l, fl'>>)
 
-AuxInit == [fresh |-> FALSE, cnt |-> 0, afterGc |-> FALSE, afterRo |-> FALSE, gcSeen |-> 0, roSeen |-> 0]
+AuxInit == [fresh |-> FALSE, cnt |-> 0, afterGc |-> FALSE, afterRo |-> FALSE, afterAdd |-> FALSE, gcSeen |-> 0, roSeen |-> 0]
 
 ----------------------------------------------------------------------------
 (* structural predicates on a node list in sub-graph form
@@ -130,7 +130,7 @@ TrAddVars ==
           /\ l2v' = IF IsPerm(Rec[l].l2v, n + Rec[l].k) THEN Rec[l].l2v
                      ELSE l2v \o [i \in 1 .. Rec[l].k |-> n + i - 1]
           /\ hs' = [s \in Live |-> [hs[s] EXCEPT !.v = Extend(kind, n, n + Rec[l].k, @)]]
-          /\ aux' = [aux EXCEPT !.fresh = FALSE]
+          /\ aux' = [aux EXCEPT !.fresh = FALSE, !.afterAdd = TRUE]
           /\ UNCHANGED <<kind, gcN, roN>>
 
 (* ---- operations ---- *)
@@ -317,6 +317,8 @@ SnapObs(r) ==
         O("C08", "snap.stable", stable),
         O("C05", "snap.handles", hOk),
         O("C05", "snap.rc", rcOk),
+        O("C16", "snap.after_add_vars", aux.afterAdd =>
+              (ok /\ stable /\ GraphOrdered(g) /\ levelsOk /\ reducedOk /\ nodupOk /\ semInj /\ rcOk)),
         O("C08", "snap.wellformed", aux.afterRo =>
               (ok /\ GraphOrdered(g) /\ levelsOk /\ reducedOk /\ nodupOk /\ semInj /\ rcOk)),
         O("C05", "snap.gc.complete", (aux.afterGc /\ ok) => \A i \in I : N[i][4] > 0),
@@ -325,7 +327,7 @@ SnapObs(r) ==
 TrSnap ==
   /\ Ev("snap")
   /\ Step(SnapObs(Rec[l]))
-  /\ aux' = [fresh |-> TRUE, cnt |-> Len(Rec[l].nodes), afterGc |-> FALSE, afterRo |-> FALSE,
+  /\ aux' = [fresh |-> TRUE, cnt |-> Len(Rec[l].nodes), afterGc |-> FALSE, afterRo |-> FALSE, afterAdd |-> FALSE,
              gcSeen |-> Rec[l].gc, roSeen |-> Rec[l].ro]
   /\ UNCHANGED <<kind, n, l2v, hs, gcN, roN>>
 
